@@ -10,6 +10,7 @@
 use libtw2_gamenet_common::error::Error;
 use libtw2_gamenet_common::msg::SystemOrGame;
 use libtw2_gamenet_common::snap_obj::TypeId;
+use libtw2_gamenet_common::traits;
 use libtw2_packer::with_packer;
 use libtw2_packer::ExcessData;
 use libtw2_packer::IntUnpacker;
@@ -39,6 +40,7 @@ struct Got {
     sec: String,    // system | game | connless | obj
     tname: String,  // Debug name of the decoded value
     size: i64,      // obj_size(ordinal), -1 = None / not applicable
+    idok: bool,     // obj_type_id() of the decoded object is the identifier it was decoded with
     panic: String,
 }
 
@@ -73,10 +75,92 @@ fn finish<F: FnOnce() -> Got>(f: F) -> Got {
             r: "panic".into(),
             enc: "none".into(),
             size: -1,
+            idok: true,
             panic: format!("{} at {}", msg, vh_common::last_panic_location()),
             ..Got::default()
         },
     }
+}
+
+/// `libtw2_gamenet_common::traits::MessageExt::{decode, encode}` of a protocol's System / Game type
+fn generic_msg<'a, M: traits::Message<'a> + std::fmt::Debug>(data: &'a [u8], sec: &str) -> Got {
+    finish(|| {
+        let mut warn: Vec<Warning> = Vec::new();
+        let mut p = Unpacker::new(data);
+        let mut got = Got { size: -1, idok: true, enc: "none".into(), ..Got::default() };
+        match <M as traits::MessageExt>::decode(&mut warn, &mut p) {
+            Ok(m) => {
+                got.r = "ok".into();
+                got.sec = sec.into();
+                got.tname = debug_name(&format!("{:?}", m));
+                let enc = catch(|| {
+                    let mut buf: Vec<u8> = Vec::with_capacity(CAP);
+                    with_packer(&mut buf, |p| traits::MessageExt::encode(&m, p).map(|b| b.to_vec()))
+                });
+                match enc {
+                    Ok(Ok(b)) => {
+                        got.enc = "ok".into();
+                        got.re = b.iter().map(|&x| x as i64).collect();
+                    }
+                    Ok(Err(_)) => got.enc = "cap".into(),
+                    Err(msg) => {
+                        got.enc = "panic".into();
+                        got.panic = format!("{} at {}", msg, vh_common::last_panic_location());
+                    }
+                }
+            }
+            Err(e) => {
+                got.r = "err".into();
+                got.e = err_class(&e).into();
+            }
+        }
+        got.w = warn_names(&warn);
+        got
+    })
+}
+
+/// `traits::SnapObj::{decode_obj, obj_type_id, encode}` and `traits::ProtocolStatic::obj_size`
+fn generic_obj<P: traits::ProtocolStatic>(ord: i64, uuid: &[u8], words: &[i32]) -> Got
+where
+    P::SnapObj: std::fmt::Debug,
+{
+    finish(|| {
+        let tid = if uuid.len() == 16 {
+            TypeId::Uuid(Uuid::from_slice(uuid).unwrap())
+        } else {
+            TypeId::Ordinal(ord as u16)
+        };
+        let mut warn: Vec<ExcessData> = Vec::new();
+        let mut p = IntUnpacker::new(words);
+        let mut got = Got { size: -1, idok: true, enc: "none".into(), ..Got::default() };
+        if uuid.len() != 16 {
+            got.size = P::obj_size(ord as u16).map(|x| x as i64).unwrap_or(-1);
+        }
+        match <P::SnapObj as traits::SnapObj>::decode_obj(&mut warn, tid, &mut p) {
+            Ok(o) => {
+                got.r = "ok".into();
+                got.sec = "obj".into();
+                got.tname = debug_name(&format!("{:?}", o));
+                got.idok = traits::SnapObj::obj_type_id(&o) == tid;
+                match catch(|| traits::SnapObj::encode(&o).to_vec()) {
+                    Ok(ws) => {
+                        got.enc = "ok".into();
+                        got.re = ws.iter().map(|&x| x as i64).collect();
+                    }
+                    Err(msg) => {
+                        got.enc = "panic".into();
+                        got.panic = format!("{} at {}", msg, vh_common::last_panic_location());
+                    }
+                }
+            }
+            Err(e) => {
+                got.r = "err".into();
+                got.e = err_class(&e).into();
+            }
+        }
+        got.w = warn_names(&warn);
+        got
+    })
 }
 
 macro_rules! proto {
@@ -89,7 +173,7 @@ macro_rules! proto {
                 finish(|| {
                     let mut warn: Vec<Warning> = Vec::new();
                     let mut p = Unpacker::new(data);
-                    let mut got = Got { size: -1, enc: "none".into(), ..Got::default() };
+                    let mut got = Got { size: -1, idok: true, enc: "none".into(), ..Got::default() };
                     match g::msg::decode(&mut warn, &mut p) {
                         Ok(m) => {
                             got.r = "ok".into();
@@ -137,12 +221,22 @@ macro_rules! proto {
                 })
             }
 
+            pub fn tsystem(data: &[u8]) -> Got {
+                generic_msg::<<g::Protocol as traits::Protocol<'_>>::System>(data, "system")
+            }
+            pub fn tgame(data: &[u8]) -> Got {
+                generic_msg::<<g::Protocol as traits::Protocol<'_>>::Game>(data, "game")
+            }
+            pub fn tobj(ord: i64, uuid: &[u8], words: &[i32]) -> Got {
+                generic_obj::<g::Protocol>(ord, uuid, words)
+            }
+
             /// inherent `System::decode` + `System::encode`
             pub fn system(data: &[u8]) -> Got {
                 finish(|| {
                     let mut warn: Vec<Warning> = Vec::new();
                     let mut p = Unpacker::new(data);
-                    let mut got = Got { size: -1, enc: "none".into(), ..Got::default() };
+                    let mut got = Got { size: -1, idok: true, enc: "none".into(), ..Got::default() };
                     match g::msg::System::decode(&mut warn, &mut p) {
                         Ok(m) => {
                             got.r = "ok".into();
@@ -179,7 +273,7 @@ macro_rules! proto {
                 finish(|| {
                     let mut warn: Vec<Warning> = Vec::new();
                     let mut p = Unpacker::new(data);
-                    let mut got = Got { size: -1, enc: "none".into(), ..Got::default() };
+                    let mut got = Got { size: -1, idok: true, enc: "none".into(), ..Got::default() };
                     match g::msg::Game::decode(&mut warn, &mut p) {
                         Ok(m) => {
                             got.r = "ok".into();
@@ -215,7 +309,7 @@ macro_rules! proto {
                 finish(|| {
                     let mut warn: Vec<Warning> = Vec::new();
                     let mut p = Unpacker::new(data);
-                    let mut got = Got { size: -1, enc: "none".into(), ..Got::default() };
+                    let mut got = Got { size: -1, idok: true, enc: "none".into(), ..Got::default() };
                     match g::msg::Connless::decode(&mut warn, &mut p) {
                         Ok(m) => {
                             got.r = "ok".into();
@@ -256,7 +350,7 @@ macro_rules! proto {
                     };
                     let mut warn: Vec<ExcessData> = Vec::new();
                     let mut p = IntUnpacker::new(words);
-                    let mut got = Got { size: -1, enc: "none".into(), ..Got::default() };
+                    let mut got = Got { size: -1, idok: true, enc: "none".into(), ..Got::default() };
                     if uuid.len() != 16 {
                         got.size = g::snap_obj::obj_size(ord as u16).map(|x| x as i64).unwrap_or(-1);
                     }
@@ -265,6 +359,7 @@ macro_rules! proto {
                             got.r = "ok".into();
                             got.sec = "obj".into();
                             got.tname = debug_name(&format!("{:?}", o));
+                            got.idok = o.obj_type_id() == tid;
                             match catch(|| o.encode().to_vec()) {
                                 Ok(ws) => {
                                     got.enc = "ok".into();
@@ -296,6 +391,28 @@ proto!(pdd, libtw2_gamenet_ddnet);
 
 fn run(proto: &str, entry: &str, ord: i64, uuid: &[u8], data: &[i64]) -> Got {
     match entry {
+        "tobj" => {
+            let words: Vec<i32> = data.iter().map(|&x| x as i32).collect();
+            match proto {
+                "0.5" => p05::tobj(ord, uuid, &words),
+                "0.6" => p06::tobj(ord, uuid, &words),
+                "0.7" => p07::tobj(ord, uuid, &words),
+                _ => pdd::tobj(ord, uuid, &words),
+            }
+        }
+        "tsystem" | "tgame" => {
+            let bytes: Vec<u8> = data.iter().map(|&x| x as u8).collect();
+            match (proto, entry) {
+                ("0.5", "tsystem") => p05::tsystem(&bytes),
+                ("0.6", "tsystem") => p06::tsystem(&bytes),
+                ("0.7", "tsystem") => p07::tsystem(&bytes),
+                (_, "tsystem") => pdd::tsystem(&bytes),
+                ("0.5", _) => p05::tgame(&bytes),
+                ("0.6", _) => p06::tgame(&bytes),
+                ("0.7", _) => p07::tgame(&bytes),
+                _ => pdd::tgame(&bytes),
+            }
+        }
         "obj" => {
             let words: Vec<i32> = data.iter().map(|&x| x as i32).collect();
             match proto {
@@ -346,7 +463,7 @@ fn run(proto: &str, entry: &str, ord: i64, uuid: &[u8], data: &[i64]) -> Got {
 
 fn got_json(g: &Got) -> Value {
     json!({"r": g.r, "e": g.e, "w": g.w, "enc": g.enc, "re": g.re, "sec": g.sec,
-           "tname": g.tname, "size": g.size, "panic": g.panic})
+           "tname": g.tname, "size": g.size, "idok": g.idok, "panic": g.panic})
 }
 
 fn ints(v: &Value) -> Vec<i64> {
@@ -391,6 +508,8 @@ fn compare(vec: &Value, got: &Got) -> Vec<(String, String)> {
                     out.push(("encode-panic".into(), format!("encode of the decoded canonical value panicked: {}", got.panic)));
                 } else if got.enc != "ok" {
                     out.push(("canon".into(), format!("encode of the decoded canonical value failed: {}", got.enc)));
+                } else if !got.idok {
+                    out.push(("canon".into(), "obj_type_id() of the decoded object differs from the identifier it was decoded with".into()));
                 } else if got.re != data {
                     out.push(("canon".into(), format!("re-encoding differs: {:?} instead of {:?}", got.re, data)));
                 }
@@ -462,6 +581,11 @@ impl Tracer {
         if entry == "msg" && self.triple {
             self.event1(proto, src, "system", ord, uuid, data, log);
             self.event1(proto, src, "game", ord, uuid, data, log);
+            self.event1(proto, src, "tsystem", ord, uuid, data, log);
+            self.event1(proto, src, "tgame", ord, uuid, data, log);
+        }
+        if entry == "obj" && self.triple {
+            self.event1(proto, src, "tobj", ord, uuid, data, log);
         }
         self.event1(proto, src, entry, ord, uuid, data, log)
     }
@@ -472,7 +596,7 @@ impl Tracer {
         let is_panic = g.r == "panic" || g.enc == "panic";
         if log || is_panic {
             let ev = json!({"k": "ev", "n": self.seq + 1, "src": src, "entry": entry, "ord": ord, "uuid": uuid, "data": data,
-                            "r": g.r, "e": g.e, "w": g.w, "enc": g.enc, "re": g.re, "sec": g.sec, "tname": g.tname});
+                            "r": g.r, "e": g.e, "w": g.w, "enc": g.enc, "re": g.re, "sec": g.sec, "tname": g.tname, "idok": g.idok});
             if let Some(o) = self.out.as_mut() {
                 writeln!(o, "{}", ev).unwrap();
             }
@@ -527,7 +651,7 @@ fn main() {
             let g = tr.event(&args[2], "run", &entry, v["ord"].as_i64().unwrap_or(0), &ints(&v["uuid"]), &ints(&v["data"]), false);
             n += 1;
             println!("{}", json!({"k": "ev", "n": n, "src": v["src"].as_str().unwrap_or("run"), "entry": entry, "ord": v["ord"], "uuid": v["uuid"], "data": v["data"],
-                                  "r": g.r, "e": g.e, "w": g.w, "enc": g.enc, "re": g.re, "sec": g.sec, "tname": g.tname, "panic": g.panic}));
+                                  "r": g.r, "e": g.e, "w": g.w, "enc": g.enc, "re": g.re, "sec": g.sec, "tname": g.tname, "idok": g.idok, "panic": g.panic}));
         }
         return;
     }
@@ -555,8 +679,8 @@ fn main() {
         logged: 0, triple: true, seq: 0, bulk_n: 0, bulk_ok: 0, bulk_err: 0, bulk_panic: 0, panics: Vec::new(),
     };
     // how many derived inputs are logged individually (validated event by event by TLC)
-    let mut trunc_log_budget: i64 = if thorough { 9_000 } else { 500 };
-    let mut mut_log_budget: i64 = if thorough { 4_000 } else { 150 };
+    let mut trunc_log_budget: i64 = if thorough { 9_000 } else { 300 };
+    let mut mut_log_budget: i64 = if thorough { 4_000 } else { 100 };
     let muts_per_vec = if thorough { 6 } else { 2 };
 
     let stdin = std::io::stdin();
@@ -666,7 +790,7 @@ fn main() {
 
     // direction B: random inputs. (a) random bodies behind a valid identifier, (b) random bytes.
     let n_rand = if thorough { 40 } else { 6 };
-    let mut rand_log_budget: i64 = if thorough { 3_000 } else { 200 };
+    let mut rand_log_budget: i64 = if thorough { 3_000 } else { 120 };
     for (entry, ord, uuid, data) in canon_seen.iter() {
         for _ in 0..n_rand {
             let len = rng.gen_range(0..(data.len() * 2 + 4));
@@ -698,7 +822,7 @@ fn main() {
         }
     }
     let n_pure = if thorough { 20_000 } else { 2_000 };
-    let mut pure_log_budget: i64 = if thorough { 2_000 } else { 100 };
+    let mut pure_log_budget: i64 = if thorough { 2_000 } else { 60 };
     for i in 0..n_pure {
         let len = rng.gen_range(0..40);
         let entry = if i % 3 == 2 { "connless" } else { "msg" };
